@@ -491,7 +491,7 @@ func init() {
 	reg(tssFam(), 10)
 	// the scheme tables are walked with All(): the by-name lookups themselves are first used
 	// inside the scheduled tasks of the registry family, in a process that has not used them yet
-	for _, n := range []string{"ML-KEM-768", "Kyber768", "X25519MLKEM768", "Kyber768-X25519", "P256Kyber768Draft00", "X-Wing", "ML-KEM-512"} {
+	for _, n := range []string{"ML-KEM-768", "Kyber768", "X25519MLKEM768", "Kyber768-X25519", "P256Kyber768Draft00", "X-Wing", "ML-KEM-512", "FrodoKEM-640-SHAKE"} {
 		for _, s := range kemschemes.All() {
 			if s.Name() == n {
 				reg(kemFam(s), 4)
